@@ -611,6 +611,32 @@ func init() {
 						}
 					}
 				}
+				if has(sa.AtEnd, "patchserial") && len(m.patched) > 0 {
+					// only REST patches wrote the document during the concurrent part: whatever their order, they were served one
+					// at a time, so the stored document is the target of the one served last - one of the targets
+					pd0 := m.patched[0]
+					sv, serr := m.serverView(pd0.coll, pd0.key)
+					if serr != nil {
+						return viol("C19:rest-patched-document-not-rebuildable", "%v; schedule %v", serr, x.trace)
+					}
+					got := ""
+					if i := strings.Index(sv, "json="); i >= 0 {
+						var g interface{}
+						json.NewDecoder(strings.NewReader(sv[i+5:])).Decode(&g)
+						got = jsonStr(g)
+					}
+					match := false
+					var targets []string
+					for _, pd := range m.patched {
+						targets = append(targets, pd.target)
+						if canonJSON(pd.target) == canonJSON(got) {
+							match = true
+						}
+					}
+					if !match {
+						return viol("C12:patches-of-one-document-not-served-one-at-a-time", "PatchDocument calls with the targets %v were all answered with success; the stored document reads %s, which is none of the targets (a mix of two patches computed from the same base); schedule %v", targets, got, x.trace)
+					}
+				}
 				if has(sa.AtEnd, "nosnapop") {
 					for _, dt := range m.readStore() {
 						for i, op := range dt.ops {
